@@ -310,7 +310,7 @@ int main(int argc, char **argv) {
     long max_states = G_thorough ? 6000000 : 1500000;
     static const char *CLS[] = { "executions", "executions_with_race", "executions_not_serially_equivalent", "executions_without_progress", NULL };
     out_begin();
-    for (HARNESS = 1; HARNESS <= 8; HARNESS++) {
+    for (HARNESS = 1; HARNESS <= 9; HARNESS++) {
         if (onlyH && HARNESS != onlyH) continue;
         if (HARNESS == 5 && !G_thorough && !onlyH) continue;
         threads_stop();
@@ -341,11 +341,11 @@ int main(int argc, char **argv) {
         r->cases = (uint64_t)o.states; r->calls = (uint64_t)o.trans; r->validated = (uint64_t)o.execs; r->cls[0] = (uint64_t)o.execs; r->cls[1] = (uint64_t)o.races; r->cls[2] = (uint64_t)o.divergent; r->cls[3] = (uint64_t)o.stuck;
         r->timed_out = !complete && !sync_complete && bound_done < 0 && !o.first[0];
         if (o.first[0]) { char key[100]; snprintf(key, sizeof key, "c20:%s:H%d", o.races ? "race" : o.cross ? "cross-thread" : o.stuck ? "no-progress" : "not-serial", HARNESS); res_viol(r, key, o.first, "harness H%d: %s", HARNESS, o.firstmsg); }
-        if (pre_bad) { res_viol(r, "c20:harness-precondition", "", "harness H%d: run alone, a refused phrase or image did not get the unsupported-feature status", HARNESS); }
+        if (pre_bad) { res_viol(r, "c20:harness-precondition", "", "harness H%d: run alone, an input did not get the status the harness was built around (refused feature / ambiguous phrase)", HARNESS); }
         if (serial_stuck) { res_viol(r, "c20:serial-stuck", "", "harness H%d: a script run alone never finishes (spins on an atomic object)", HARNESS); }
         char pp[100] = ""; for (int t = 0; t < NT; t++) snprintf(pp + strlen(pp), sizeof pp - strlen(pp), "%s%d", t ? "+" : "", ref_pts[t]);
         res_sample(r, "H%d: %d threads, shared-access points per thread %s, %ld executions, %llu distinct joint transcripts, max preemptions in one execution %d", HARNESS, NT, pp, o.execs, (unsigned long long)o.distinct_tr, o.max_preempt);
-        char name[160]; snprintf(name, sizeof name, "H%d (%d threads): %s", HARNESS, NT, HARNESS == 1 ? "create, encode(es), decode(auto), free" : HARNESS == 2 ? "load, crypt, keygen, encode(jp), decode_explicit, free" : HARNESS == 6 ? "libc allocator (alloc/free entries NULL): create, free, create, store, load, free" : HARNESS == 7 ? "decode(auto) of a refused phrase (feature not enabled) + decode_explicit + refused load | decode(auto, es) + refused decode_explicit + decode(auto)" : HARNESS == 8 ? "shared recycling pool allocator: load, free, create, store, free | create, store, free, load, free" : HARNESS == 5 ? "3 x (create, encode, decode(auto), free) in es / fr / en, coin 9" : HARNESS == 4 ? "load+encode(zh_t)+decode(auto)+crypt(non-ASCII) | create+encode(ko)+store+decode_explicit" : "create+encode | load+encode+decode_explicit | load+crypt+keygen, all English / coin 1");
+        char name[160]; snprintf(name, sizeof name, "H%d (%d threads): %s", HARNESS, NT, HARNESS == 1 ? "create, encode(es), decode(auto), free" : HARNESS == 2 ? "load, crypt, keygen, encode(jp), decode_explicit, free" : HARNESS == 6 ? "libc allocator (alloc/free entries NULL): create, free, create, store, load, free" : HARNESS == 7 ? "decode(auto) of a refused phrase (feature not enabled) + decode_explicit + refused load | decode(auto, es) + refused decode_explicit + decode(auto)" : HARNESS == 8 ? "shared recycling pool allocator: load, free, create, store, free | create, store, free, load, free" : HARNESS == 9 ? "ambiguous Chinese phrases: decode(auto) -> multiple languages, decode_explicit(zh_s | zh_t), decode(auto, no lang_out)" : HARNESS == 5 ? "3 x (create, encode, decode(auto), free) in es / fr / en, coin 9" : HARNESS == 4 ? "load+encode(zh_t)+decode(auto)+crypt(non-ASCII) | create+encode(ko)+store+decode_explicit" : "create+encode | load+encode+decode_explicit | load+crypt+keygen, all English / coin 1");
         char note[200]; snprintf(note, sizeof note, "%s; states = distinct (shared data, progress, values read, running thread) keys; transitions = enabled choices", complete ? "all interleavings explored (complete, no preemption bound)" : sync_complete ? "too large at access granularity; all interleavings at synchronisation granularity (library atomics) explored, race detector on every execution; access granularity up to the preemption bound in e3_preemption_bound" : bound_done >= 0 ? "state cap hit without bound; completed with preemption bound (see e3_preemption_bound)" : "stopped early");
         out_part(name, r, CLS, note);
         char k[64]; snprintf(k, sizeof k, "e3_H%d_complete", HARNESS); out_kv_int(k, complete); snprintf(k, sizeof k, "e3_H%d_preemption_bound", HARNESS); out_kv_int(k, complete ? -1 : bound_done); snprintf(k, sizeof k, "e3_H%d_executions", HARNESS); out_kv_int(k, o.execs);
